@@ -1233,6 +1233,26 @@ def Q_rules(ctx, rule="Q"):
             ctx.check(okb, rule + "4", "result-checked|%s" % key, where,
                       "every path from a callback invocation to the return of %s inspects that invocation's result (`?`/match)" % key,
                       "%s can return without inspecting the result of the last callback invocation: its error is swallowed" % key)
+    # Q6: a clone of the graph has every field copied from the same field (the reversed structure is not a copy of the forward one)
+    for bq in fb.prod_bodies():
+        sigq = fb.fns.get(bq.id) or {}
+        if sigq.get("impl_trait") == "std::clone::Clone" and (sigq.get("impl_self") or "").startswith("fn_graph::FnGraph<") and sigq.get("name") == "clone":
+            n += 1
+            aggs = [s_ for _, _, s_ in bq.stmts() if s_["k"] == "assign" and s_["rv"]["k"] == "agg" and s_["rv"].get("def") == "fn_graph::FnGraph"]
+            okq = bool(aggs)
+            whyq = "no FnGraph construction in clone()"
+            for s_ in aggs:
+                for i, o in enumerate(s_["rv"]["ops"]):
+                    ex = strip_refs(expr_operand(bq, o))
+                    hops = 0
+                    while ex.kind == "call" and ex[1] in ("std::clone::Clone::clone", "std::borrow::ToOwned::to_owned") and ex[2] and hops < 4:
+                        ex = strip_refs(ex[2][0])
+                        hops += 1
+                    if not (ex.kind == "field" and strip_refs(ex[1]) == E(("arg", 1)) and ex[2] == i):
+                        okq = False
+                        whyq = "field #%d (%s) of the clone is `%s`" % (i, (s_["rv"].get("fields") or [""] * (i + 1))[i], fmt_expr(ex, bq))
+            ctx.check(okq, rule + "6", "clone-frame", m.where(bq),
+                      "FnGraph::clone copies every field from the same field of the original", whyq)
     # Q5 iter_insertion*
     for nm, fn_ in (("iter_insertion", "node_references"), ("iter_insertion_mut", "node_weights_mut"), ("iter_insertion_with_indices", "node_references")):
         fid = "fn_graph::FnGraph::<F>::" + nm
@@ -1490,6 +1510,20 @@ def G_rules(ctx, rule="G"):
         ctx.check(attrs >= {"source", "target", "edge-weight", "node-weight"}, rule + "5", "eq-attrs", m.where(eqb),
                   "GraphInfo == compares node weights and (source, target, weight) of every edge",
                   "GraphInfo == compares only %s" % sorted(attrs))
+        # every pairwise comparison is a conjunction starting from `true` (two empty sequences are equal)
+        from rules_build import conjunctive_consumer
+        nz = 0
+        for bx in m.reach_bodies(eqb.id):
+            for bb, t in bx.calls():
+                if callee_path(t) in ("std::iter::Iterator::try_fold", "std::iter::Iterator::all", "std::iter::Iterator::fold",
+                                      "std::iter::Iterator::any", "std::iter::Iterator::try_for_each"):
+                    chain = iterator_chain(ctx, bx, expr_operand(bx, t["args"][0]))
+                    if "std::iter::Iterator::zip" in [c[0] for c in chain]:
+                        nz += 1
+                        okc, whyc = conjunctive_consumer(ctx, bx, bb, t)
+                        ctx.check(okc, rule + "5", "conjunctive|%d" % nz, m.where(bx, bb),
+                                  "pairwise comparison is a conjunction over all pairs (%s)" % whyc,
+                                  "GraphInfo ==: %s" % whyc)
     # G3b writer's and reader's tables agree (catches asymmetric #[serde(..)] attributes)
     for ty in ("graph_info::GraphInfo", "edge::Edge", "fn_id_inner::FnIdInner"):
         adt = fb.adts.get(ty)
